@@ -52,8 +52,11 @@ type phase struct {
 	Engine string // directory under engines/
 	Test   string // test function
 	Inject bool   // run the yield injector over the scratch copy
-	Race   bool   // build with -race, free-running goroutines
-	Cpu    int    // GOMAXPROCS of the worker (-test.cpu), default 1
+	Fine   bool   // with Inject: also yield before every indexed/selector/pointer assignment
+	// ThoroughOnly phases are skipped in the quick tier.
+	ThoroughOnly bool
+	Race         bool // build with -race, free-running goroutines
+	Cpu          int  // GOMAXPROCS of the worker (-test.cpu), default 1
 	// QuickChecks is the number of rapid checks per worker in the quick tier.
 	QuickChecks int
 	// ThoroughChecks is the number of rapid checks per worker and round in the thorough tier.
@@ -108,8 +111,11 @@ var props = map[string]propCfg{
 	},
 	"C01": {
 		ID: "C01", Level: "exploration",
-		Rule:   "cases = (1..2 base frames of all column types incl. nulls, a sequentially built family of derived frames/groupers/views that share column and index storage, 1..3 simulated clients each running a program of operations whose receivers are picked among the members existing at that moment, a PCT or random-walk schedule over the loop-level scheduling points injected into a scratch copy of qframe); oracle I1: every member and every slice handed to New equals the snapshot taken at its creation, checked after every operation and at sampled scheduler steps while other clients are inside an operation; non-trivial = at least one derived member exists (storage is shared); distinct = distinct (build ops, programs, context-switch sequence)",
-		Phases: []phase{{Engine: "family", Test: "TestC01", Inject: true, QuickChecks: 40000, ThoroughChecks: 100000}},
+		Rule: "cases = (1..2 base frames of all column types incl. nulls, a sequentially built family of derived frames/groupers/views that share column and index storage, 1..3 simulated clients each running a program of operations whose receivers are picked among the members existing at that moment, a PCT or random-walk schedule over the loop-level scheduling points injected into a scratch copy of qframe); oracle I1: every member and every slice handed to New equals the snapshot taken at its creation, checked after every operation and at sampled scheduler steps while other clients are inside an operation; non-trivial = at least one derived member exists (storage is shared); distinct = distinct (build ops, programs, context-switch sequence)",
+		Phases: []phase{
+			{Engine: "family", Test: "TestC01", Inject: true, QuickChecks: 40000, ThoroughChecks: 40000},
+			{Engine: "family", Test: "TestC01", Inject: true, Fine: true, ThoroughOnly: true, ThoroughChecks: 30000},
+		},
 		Real:   commonReal,
 		Stub:   []string{"caller-thread scheduler (cooperative, one baton; PCT / random walk)", "scheduling points: simhook.Yield inserted by go/ast at every for/range body of a scratch copy (never in /repo)", "hash function (seeded good hash via verif hook) and math/rand seed, so that step counts replay across processes"},
 		Assume: []string{"yields sit at loop heads: interference that needs a switch between two straight-line statements of one iteration is left to the race engine (VERIF_YIELD_FINE=1 adds yields before indexed/selector assignments)", "Append is excluded (documented as not to be used, not listed by C01)"},
@@ -118,8 +124,9 @@ var props = map[string]propCfg{
 		ID: "C11", Level: "exploration",
 		Rule: "deterministic half: same world as C01 with 2..4 clients; oracle I2: the canonical result of every operation executed under the schedule equals the result of the same operation re-run alone on the same operands (Distinct/GroupBy/Aggregate compared as sets), plus I1; non-trivial = at least one context switch pre-empted a client inside an operation; distinct = distinct (programs, build ops, context-switch sequence). Race half: the same generated programs with 2..8 free-running goroutines against an uninstrumented -race build (GORACE=halt_on_error), plus the same I2 comparison.",
 		Phases: []phase{
-			{Engine: "family", Test: "TestC11", Inject: true, QuickChecks: 40000, ThoroughChecks: 100000},
-			{Engine: "race", Test: "TestC11Race", Race: true, Cpu: 4, QuickChecks: 1500, ThoroughChecks: 6000},
+			{Engine: "family", Test: "TestC11", Inject: true, QuickChecks: 40000, ThoroughChecks: 40000},
+			{Engine: "family", Test: "TestC11", Inject: true, Fine: true, ThoroughOnly: true, ThoroughChecks: 30000},
+			{Engine: "race", Test: "TestC11Race", Race: true, Cpu: 4, QuickChecks: 1500, ThoroughChecks: 3000},
 		},
 		Real:   commonReal,
 		Stub:   []string{"caller-thread scheduler (cooperative) in the deterministic half; the Go runtime scheduler in the race half (real, not controlled: see DESIGN.md §2.4)", "scheduling points injected at loops of a scratch copy", "hash function and math/rand seed"},
@@ -304,7 +311,14 @@ func copyRepo(dst string) (int, error) {
 // build builds one engine against a scratch copy of /repo.
 func build(sc *scratch, ph phase) (bin string, info map[string]interface{}, err error) {
 	info = map[string]interface{}{}
-	repoCopy := filepath.Join(sc.dir, "repo")
+	copyName := "repo"
+	if ph.Inject {
+		copyName = "repo-yield"
+		if ph.Fine {
+			copyName = "repo-yield-fine"
+		}
+	}
+	repoCopy := filepath.Join(sc.dir, copyName)
 	if _, err := os.Stat(repoCopy); err != nil {
 		n, err := copyRepo(repoCopy)
 		if err != nil {
@@ -314,7 +328,7 @@ func build(sc *scratch, ph phase) (bin string, info map[string]interface{}, err 
 	}
 	if ph.Inject {
 		if _, err := os.Stat(filepath.Join(repoCopy, "simhook")); err != nil {
-			sites, files, err := injectYields(repoCopy)
+			sites, files, err := injectYields(repoCopy, ph.Fine || os.Getenv("VERIF_YIELD_FINE") == "1")
 			if err != nil {
 				return "", info, fmt.Errorf("yield injection: %w", err)
 			}
@@ -337,6 +351,9 @@ func build(sc *scratch, ph phase) (bin string, info map[string]interface{}, err 
 		return "", info, err
 	}
 	bin = filepath.Join(sc.dir, ph.Engine+".test")
+	if ph.Fine {
+		bin = filepath.Join(sc.dir, ph.Engine+".fine.test")
+	}
 	if ph.Race {
 		bin = filepath.Join(sc.dir, ph.Engine+".race.test")
 	}
@@ -405,6 +422,9 @@ func runWorker(bin string, sc *scratch, id, tier string, ph phase, round, w int,
 	dir := filepath.Join(sc.dir, fmt.Sprintf("%s-r%dw%d", ph.Engine, round, w))
 	if ph.Race {
 		dir += "race"
+	}
+	if ph.Fine {
+		dir += "fine"
 	}
 	res.dir = dir
 	if err := os.MkdirAll(dir, 0o755); err != nil {
@@ -569,6 +589,9 @@ func cmdRun(args []string) int {
 		if only := os.Getenv("VERIF_PHASE"); only != "" && only != ph.Engine {
 			continue // development aid: run one phase only
 		}
+		if ph.ThoroughOnly && tier != "thorough" {
+			continue
+		}
 		bin, info, err := build(sc, ph)
 		info["engine"] = ph.Engine
 		info["test"] = ph.Test
@@ -669,6 +692,7 @@ type replayMeta struct {
 	Test      string   `json:"test"`
 	Tier      string   `json:"tier"`
 	Inject    bool     `json:"inject"`
+	Fine      bool     `json:"fine,omitempty"`
 	Race      bool     `json:"race"`
 	Cpu       int      `json:"cpu,omitempty"`
 	Seed      uint64   `json:"worker_seed"`
@@ -719,7 +743,7 @@ func merge(cfg propCfg, tier string, seed uint64, seeds []uint64, all []*workerR
 			ph := phaseOf(cfg, r)
 			base := filepath.Join(verifDir, "replays", fmt.Sprintf("%s-%s-s%d", cfg.ID, sanitize(r.signature), r.seed))
 			replay := base + ".fail"
-			meta := replayMeta{Property: cfg.ID, Engine: ph.Engine, Test: ph.Test, Tier: tier, Inject: ph.Inject, Race: ph.Race, Cpu: ph.Cpu, Seed: r.seed, Signature: r.signature, Message: r.message, Env: ph.Env, Kind: "rapid-failfile", Checks: r.checks}
+			meta := replayMeta{Property: cfg.ID, Engine: ph.Engine, Test: ph.Test, Tier: tier, Inject: ph.Inject, Fine: ph.Fine, Race: ph.Race, Cpu: ph.Cpu, Seed: r.seed, Signature: r.signature, Message: r.message, Env: ph.Env, Kind: "rapid-failfile", Checks: r.checks}
 			if r.failfile != "" {
 				b, _ := os.ReadFile(r.failfile)
 				os.WriteFile(replay, b, 0o644)
@@ -789,6 +813,9 @@ func phaseOf(cfg propCfg, r *workerResult) phase {
 		if ph.Race {
 			suffix += "race"
 		}
+		if ph.Fine {
+			suffix += "fine"
+		}
 		if strings.HasSuffix(r.dir, suffix) {
 			return ph
 		}
@@ -852,7 +879,7 @@ func cmdReplay(args []string) int {
 		fmt.Fprintln(os.Stderr, "vcheck:", err)
 		return 2
 	}
-	ph := phase{Engine: meta.Engine, Test: meta.Test, Inject: meta.Inject, Race: meta.Race, Env: meta.Env, Cpu: meta.Cpu}
+	ph := phase{Engine: meta.Engine, Test: meta.Test, Inject: meta.Inject, Fine: meta.Fine, Race: meta.Race, Env: meta.Env, Cpu: meta.Cpu}
 	bin, _, err := build(sc, ph)
 	if err != nil {
 		fmt.Fprintln(os.Stderr, "vcheck:", err)
